@@ -75,11 +75,23 @@ Proof.
   apply in_seq. lia.
 Qed.
 
-Lemma all_plugins_subscription : all_subscriptions_exact num_plugins = true.
+(* stated without the [let] of all_subscriptions_exact: the kernel's conversion on the let-form
+   does not terminate in reasonable time at Qed of the lemmas that use it *)
+Lemma all_plugins_subscription :
+  forallb (subscription_exact_t handler_events) (plugins_upto num_plugins) = true.
 Proof. vm_compute. reflexivity. Qed.
 
 Lemma all_plugins_handlers : forallb handlers_exact (plugins_upto num_plugins) = true.
 Proof. vm_compute. reflexivity. Qed.
+
+Lemma forallb_in {A} (f : A -> bool) l : forallb f l = true -> forall x, In x l -> f x = true.
+Proof. intros H. apply forallb_forall. exact H. Qed.
+
+Lemma subscription_exact_p p : (p < num_plugins)%N -> subscription_exact_t handler_events p = true.
+Proof. intros Hp. exact (forallb_in _ _ all_plugins_subscription p (in_plugins_upto _ _ Hp)). Qed.
+
+Lemma handlers_exact_p p : (p < num_plugins)%N -> handlers_exact p = true.
+Proof. intros Hp. exact (forallb_in _ _ all_plugins_handlers p (in_plugins_upto _ _ Hp)). Qed.
 
 (* all thirteen events are distinct and valid (regenerated numbers) *)
 Lemma proto_events_valid : forallb (fun h => (1 <=? proto_event h)%Z && (proto_event h <=? 13)%Z && is_set valid_events (proto_event h)) all_handlers = true.
@@ -93,10 +105,8 @@ Lemma implemented_exact p e :
   (p < num_plugins)%N -> (1 <= e <= 31)%Z ->
   implemented p e = true <-> exists h, implements p h = true /\ proto_event h = e.
 Proof.
-  intros Hp He. pose proof all_plugins_subscription as A. unfold all_subscriptions_exact in A. cbv zeta in A.
-  rewrite forallb_forall in A.
-  specialize (A p (in_plugins_upto _ _ Hp)). unfold subscription_exact_t in A. cbv zeta in A.
-  rewrite forallb_forall in A. specialize (A e (in_event_bits _ He)).
+  intros Hp He. pose proof (subscription_exact_p p Hp) as A. unfold subscription_exact_t in A.
+  pose proof (forallb_in _ _ A e (in_event_bits _ He)) as A'. clear A. rename A' into A. cbv beta in A.
   apply eqb_prop in A. unfold implemented. rewrite A. rewrite existsb_exists. split.
   - intros [x [Hx Hh]]. unfold handler_events in Hx. apply in_map_iff in Hx. destruct Hx as [h [<- _]].
     cbn [fst snd] in Hh. apply andb_true_iff in Hh. destruct Hh as [Hi Hq]. apply Z.eqb_eq in Hq. eauto.
@@ -109,9 +119,8 @@ Lemma stub_handlers_exact p h :
   (p < num_plugins)%N ->
   alookup (method_of h) (stub_handlers p) = if implements p h then Some (method_of h) else None.
 Proof.
-  intros Hp. pose proof all_plugins_handlers as A. rewrite forallb_forall in A.
-  specialize (A p (in_plugins_upto _ _ Hp)). unfold handlers_exact in A.
-  rewrite forallb_forall in A. specialize (A h (in_all_handlers h)). cbv zeta in A.
+  intros Hp. pose proof (handlers_exact_p p Hp) as A0. unfold handlers_exact in A0.
+  pose proof (forallb_in _ _ A0 h (in_all_handlers h)) as A. clear A0. cbv beta in A.
   destruct (alookup (method_of h) (stub_handlers p)) as [m|].
   - apply andb_true_iff in A. destruct A as [Hi Hm]. apply String.eqb_eq in Hm. rewrite Hi, Hm. reflexivity.
   - apply negb_true_iff in A. rewrite A. reflexivity.
